@@ -45,6 +45,13 @@ def run(ctx):
         for rep in range(6 if ctx.quick() else 40):
             cfg = 6 | (1 << 8) | (rng.randrange(1, 4) << 12) | (rng.choice([0, 1]) << 16) | (rng.choice([4, 16]) << 20) | (1 << 28)
             lines.append('enc 1 %d 2 %d - %s' % (cfg, 23 * rng.randrange(1, 1000), d_.hex())); meta.append((len(datas) - 1, 0, 0, 'abort'))
+    # a worker that fails (a chain the Block encoder refuses: LZMA1 is not allowed in .xz, but passes the initial validation)
+    # while the main thread has handed everything over and waits: the error must come back, not a hang
+    for d_ in (datas[2] if len(datas) > 2 else b'x' * 3000, b'y' * 20000):
+        for th in (0, 1, 3):
+            for to in (0, 1):
+                cfg = 0 | (1 << 8) | (th << 12) | (to << 16) | (1 << 20)
+                lines.append('enc 1 %d %d %d lzma1:dict=4KiB %s' % (cfg, rng.choice([0, 3]), rng.randrange(1 << 20), d_.hex())); meta.append((0, 0, 0, 'mustfail'))
     outs = [None] * len(lines); fails = []
     for ss in range(4):
         idx = [i for i in range(len(lines)) if i % 4 == ss]
@@ -60,6 +67,10 @@ def run(ctx):
         t = o.split()
         if kind == 'abort':
             distinct.add(('abort', t[0])); continue
+        if kind == 'mustfail':
+            distinct.add(('mustfail', t[0]))
+            if t[0] in ('0', '1'): viol.append(dict(why='threaded encoder accepted a filter chain that is not valid in .xz (LZMA1) and returned %s' % t[0], line=l[:300]))
+            continue
         if t[0] != '1': viol.append(dict(why='threaded encoder returned %s' % t[0], line=l[:300])); continue
         if t[-1] != 'P1': viol.append(dict(why='lzma_get_progress exceeded the true totals, went backwards, or did not equal them at the end', line=l[:300]))
         b = bytes.fromhex(t[1]) if t[1] != '-' else b''
